@@ -92,9 +92,15 @@ MUTANTS = [
     ("sparse_support_one_sided", "bempp_cl/core/sparse_assembler.py", "support = domain.support * dual_to_range.support", "support = domain.support", 0, ["C13", "C04"]),
     ("l2_kernel_trial_index", NK, "* local_trial_fun_values[dim_index, trial_index, quad_index]\n                        * quad_weights[quad_index]\n                        * integration_element\n                    )\n\n\n@_numba.jit(nopython=True, parallel=False, error_model=\"numpy\", fastmath=True, boundscheck=False)\ndef _vector_grad_product_kernel", "* local_trial_fun_values[dim_index, test_index, quad_index]\n                        * quad_weights[quad_index]\n                        * integration_element\n                    )\n\n\n@_numba.jit(nopython=True, parallel=False, error_model=\"numpy\", fastmath=True, boundscheck=False)\ndef _vector_grad_product_kernel", 0, ["C13"]),
     ("gf_evaluate_wrong_dofs", "bempp_cl/api/assembly/grid_function.py", "return _np.tensordot(element_values, self.grid_coefficients[global_dofs], axes=([1], [0]))", "return _np.tensordot(element_values, self.coefficients[global_dofs], axes=([1], [0]))", 0, ["C13"]),
+    ("scalar_proj_wrong_vertex", "bempp_cl/api/assembly/grid_function.py", "+ points[1] * grid_data.vertices[j, grid_data.elements[2, index]]", "+ points[1] * grid_data.vertices[j, grid_data.elements[1, index]]", 0, ["C13"]),
+    ("scalar_proj_normal_unflipped", "bempp_cl/api/assembly/grid_function.py", "                grid_data.normals[index] * normal_multipliers[index],\n", "                grid_data.normals[index],\n", 0, ["C13"]),
+    ("vertex_average_unweighted", "bempp_cl/api/assembly/grid_function.py", "values[:, index] += local_values[:, i] * element_area", "values[:, index] += local_values[:, i]", 0, ["C13"]),
+    ("centres_wrong_reference_point", "bempp_cl/api/assembly/grid_function.py", "local_coordinates = _np.array([[1.0 / 3], [1.0 / 3]])", "local_coordinates = _np.array([[0.5], [0.5]])", 0, ["C13"]),
     ("projection_position_index", "bempp_cl/api/assembly/grid_function.py", "* function_data[:, index * npoints : (1 + index) * npoints]", "* function_data[:, element * npoints : (1 + element) * npoints]", 0, ["C13"]),
     ("map_to_full_grid_rows", "bempp_cl/api/space/space.py", "nshape_fun * _np.repeat(self._support_elements, nshape_fun)\n                    + _np.tile(_np.arange(nshape_fun), self._number_of_support_elements),", "nshape_fun * _np.repeat(_np.arange(self._number_of_support_elements), nshape_fun)\n                    + _np.tile(_np.arange(nshape_fun), self._number_of_support_elements),", 0, ["C02", "C04", "C09"]),
     ("rwg_sign_rule", "bempp_cl/api/space/maxwell_spaces.py", "1 if element_index == min(supported_neighbors) else -1", "1 if element_index == min(supported_neighbors) else 1", 0, ["C03", "C09"]),
+    ("normal_mult_both_plus", "bempp_cl/api/space/space.py", "            normal_multipliers[element_index] = -1\n", "            normal_multipliers[element_index] = 1\n", 0, ["C03", "C09"]),
+    ("normal_mult_wrong_set", "bempp_cl/api/space/space.py", "        if grid.domain_indices[element_index] in swapped_normals:\n            normal_multipliers", "        if element_index in swapped_normals:\n            normal_multipliers", 0, ["C03", "C09"]),
     ("snc_evaluate_cross_order", "bempp_cl/api/space/maxwell_spaces.py", "result[0, :, :] = normal[1] * tmp[2, :, :] - normal[2] * tmp[1, :, :]", "result[0, :, :] = normal[2] * tmp[1, :, :] - normal[1] * tmp[2, :, :]", 0, ["C09"]),
     ("colour_map_first_dof_only", "bempp_cl/api/space/space.py", "            for dof in global_dofs:\n                for elem, _ in self.global2local[dof]:", "            for dof in global_dofs[:1]:\n                for elem, _ in self.global2local[dof]:", 0, ["C16"]),
     ("rwg_alias_fixed_index", "bempp_cl/api/space/maxwell_spaces.py", "dofmap[local_index] = dofmap[first_nonzero]", "dofmap[local_index] = dofmap[0]", 0, ["C16"]),
@@ -139,6 +145,14 @@ EQUIVALENTS = [
     ("eq_invert_rename", "bempp_cl/api/space/space.py", "    for elem_index in range(number_of_elements):\n        for local_index, dof in enumerate(local2global_map[elem_index]):\n            if local_multipliers[elem_index, local_index] != 0:\n                global2local_map[dof].append((elem_index, local_index))\n",
      "    for e in range(len(local2global_map)):\n        row = local2global_map[e]\n        for k, d in enumerate(row):\n            if 0 != local_multipliers[e, k]:\n                global2local_map[d].append((e, k))\n", 0, ["C16", "C09"]),
     ("eq_p1_alias_rename", "bempp_cl/api/space/scalar_spaces.py", "            max_dof = _np.max(local2global_final[element_index])\n            for local_index in range(3):\n                if local2global[element_index, local_index] == -1:\n                    local2global_final[element_index, local_index] = max_dof", "            for k in range(3):\n                if local2global[element_index, k] == -1:\n                    local2global_final[element_index, k] = local2global_final[element_index].max()", 0, ["C16", "C09"]),
+    ("eq_normal_mult_rename", "bempp_cl/api/space/space.py", "    for element_index in range(number_of_elements):\n        if grid.domain_indices[element_index] in swapped_normals:\n            normal_multipliers[element_index] = -1\n        else:\n            normal_multipliers[element_index] = 1\n",
+     "    for k in range(grid.number_of_elements):\n        dom = grid.domain_indices[k]\n        if dom in swapped_normals:\n            normal_multipliers[k] = -1\n        else:\n            normal_multipliers[k] = 1\n", 0, ["C03", "C09"]),
+    ("eq_rwg_sign_rename", "bempp_cl/api/space/maxwell_spaces.py", "                supported_neighbors = [e for e in current_neighbors if support[e]]\n\n                if len(supported_neighbors) == 1:\n                    local_multipliers[element_index, local_index] = 1\n                else:\n                    # Assign 1 or -1 depending on element index\n                    local_multipliers[element_index, local_index] = (\n                        1 if element_index == min(supported_neighbors) else -1\n                    )",
+     "                nbs = [e for e in current_neighbors if support[e]]\n\n                if len(nbs) == 1:\n                    local_multipliers[element_index, local_index] = 1\n                else:\n                    local_multipliers[element_index, local_index] = 1 if min(nbs) == element_index else -1", 0, ["C03", "C09", "C16"]),
+    ("eq_vertex_average_rename", "bempp_cl/api/assembly/grid_function.py", "            for i in range(3):\n                index = grid.elements[i, element_index]\n                vertex_used[index] = True\n                element_area = grid.volumes[element_index]\n                vertex_areas[index] += element_area\n                values[:, index] += local_values[:, i] * element_area\n",
+     "            area = grid.volumes[element_index]\n            for k in range(3):\n                v = grid.elements[k, element_index]\n                values[:, v] += area * local_values[:, k]\n                vertex_areas[v] += area\n                vertex_used[v] = True\n", 0, ["C13", "C19"]),
+    ("eq_scalar_projection_rename", "bempp_cl/api/assembly/grid_function.py", "        for j in range(npoints):\n            point = global_points[:, j]\n\n            fun(\n                point,\n                grid_data.normals[index] * normal_multipliers[index],\n                grid_data.domain_indices[index],\n                fun_result,\n                function_parameters,\n            )\n            fvalues[:, j] = fun_result\n",
+     "        normal = normal_multipliers[index] * grid_data.normals[index]\n        for q in range(points.shape[1]):\n            fun(global_points[:, q], normal, grid_data.domain_indices[index], fun_result, function_parameters)\n            fvalues[:, q] = fun_result\n", 0, ["C13"]),
     ("eq_refine_rename", "bempp_cl/api/grid/grid.py", "            vertex01 = self.element_edges[0, index] + self.number_of_vertices\n            vertex20 = self.element_edges[1, index] + self.number_of_vertices\n            vertex12 = self.element_edges[2, index] + self.number_of_vertices\n\n            new_elements[:, 4 * index] = [vertex0, vertex01, vertex20]\n\n            new_elements[:, 4 * index + 1] = [vertex01, vertex1, vertex12]\n\n            new_elements[:, 4 * index + 2] = [vertex12, vertex2, vertex20]\n\n            new_elements[:, 4 * index + 3] = [vertex01, vertex12, vertex20]\n",
      "            nv = self.number_of_vertices\n            m_a = nv + self.element_edges[0, index]\n            m_b = nv + self.element_edges[1, index]\n            m_c = nv + self.element_edges[2, index]\n            new_elements[:, 3 + 4 * index] = [m_a, m_c, m_b]\n            new_elements[:, 4 * index + 2] = [m_c, vertex2, m_b]\n            new_elements[:, 1 + index * 4] = [m_a, vertex1, m_c]\n            new_elements[:, index * 4] = [vertex0, m_a, m_b]\n", 0, ["C11", "C04"]),
     ("eq_union_rename", "bempp_cl/api/grid/grid.py", "        vertices[:, vertex_offset : vertex_offset + nvertices] = grid.vertices\n        if swapped_normals[index]:\n            current_elements = grid.elements[[0, 2, 1], :]\n        else:\n            current_elements = grid.elements\n        elements[:, element_offset : element_offset + nelements] = current_elements + vertex_offset\n        all_domain_indices[element_offset : element_offset + nelements] = domain_indices[index]\n        vertex_offset += nvertices\n        element_offset += nelements\n",
